@@ -1,18 +1,143 @@
-/- Line-protocol handler for the phasor conversions of C14 (model + spec evaluation over Rat). -/
-import Lcapy.Model.CRat
-namespace Lcapy.Driver.C14
-open Lcapy
+/- Line-protocol handler for C14: phasor conversions (interpreter of the GENERATED ACChecker tables), the time-domain
+   steady-state spec `LawsTD` on reconstructed signals, and phasor-domain immittance of one-port trees.
 
-/-- mirrors Lcapy.C14.toPhasor / toTime / semTime / semPhasor (Props/C14.lean) at `Rat` -/
+   ph.toPhasor a b / ph.toTime re im           a·cos + b·sin ↔ re + j·im  (Model/Phasor.lean `toPh`, `toTime`)
+   ph.term <cos|sin> A c s                     phasor of A·f(ωt+φ), (c, s) = (cos φ, sin φ), through Gen.AC.funcPhase
+   ph.sum A1 c1 s1 A2 c2 s2                    phasor of the sum of two terms through Gen.AC.sumBranches: `<branch> re im`
+   ph.timeform re im C S                       Gen.AC.timeForm
+   ph.polar re im | M2 X Y R2                  spec predicate: M2 = |P|², (X, Y) = |P|(cos φ, sin φ) = (re, im), R2 = rms² = |P|²/2
+   ss.laws <w> || <netlist lines> || V n=a,b … J name=a,b …
+                                               the time-domain laws (Spec/LawsTD.lean) at angular frequency w on the given
+                                               sinusoids a·cos wt + b·sin wt: `ok` | `kcl <node> <ra> <rb>` | `law <cpt> <branch> …` | `undef …`
+   ac.imp <w> <tree> / ac.adm <w> <tree>       phasor-domain immittance (Model/ACImmittance.lean): `re im`
+   ac.zs <w> <tree> / ac.ys <w> <tree>         Laplace-domain immittance of C07's model at s = jw over Cx: `re im`
+-/
+import Lcapy.Model.CRat
+import Lcapy.Driver.C01
+import Lcapy.Driver.C07
+import Lcapy.Generated.ACTable
+import Lcapy.Model.Phasor
+import Lcapy.Model.ACImmittance
+import Lcapy.Spec.LawsTDExec
+namespace Lcapy.Driver.C14
+open Lcapy Lcapy.MNA Lcapy.Netlist Lcapy.TDS Lcapy.AC
+
+def gqRe (g : GQ) : CRat := match g.v with | some (re, im) => if im = 0 then ⟨some re⟩ else ⟨none⟩ | none => ⟨none⟩
+
+/-- the time-domain component of an elaborated phasor-domain component: real values, source phasor ↦ sinusoid -/
+def toSCpt (c : Cpt GQ) : SCpt CRat (Sinus CRat) :=
+  let src (v : GQ) : Sinus CRat := match v.v with | some (re, im) => ⟨⟨some re⟩, ⟨some (-im)⟩⟩ | none => ⟨⟨none⟩, ⟨none⟩⟩
+  match c with
+  | .V n1 n2 m v => (.V n1 n2 m 0, src v)
+  | .I n1 n2 i => (.I n1 n2 0, src i)
+  | c => (embed gqRe c, ⟨0, 0⟩)
+
+def parseSinus (s : String) : Option (Sinus CRat) :=
+  match s.splitOn "," with
+  | [a] => (parseRat a).map (fun a => ⟨⟨some a⟩, 0⟩)
+  | [a, b] => do let a ← parseRat a; let b ← parseRat b; some ⟨⟨some a⟩, ⟨some b⟩⟩
+  | _ => none
+
+def parseAssignS (e : Elab) (toks : List String) : Except String (Ix → Sinus CRat) := do
+  let rec go (toks : List String) (mode : String) (acc : List (Ix × Sinus CRat)) : Except String (List (Ix × Sinus CRat)) :=
+    match toks with
+    | [] => pure acc
+    | "V" :: r => go r "V" acc
+    | "J" :: r => go r "J" acc
+    | t :: r =>
+      match t.splitOn "=" with
+      | [k, v] =>
+        match parseSinus v with
+        | none => throw s!"bad-value:{t}"
+        | some g =>
+          if mode = "V" then
+            match findClass e.cls k with
+            | some i => go r mode ((Ix.node i, g) :: acc)
+            | none => throw s!"unknown-node:{k}"
+          else
+            match e.brs.idxOf? k with
+            | some m => go r mode ((Ix.br m, g) :: acc)
+            | none => throw s!"unknown-branch:{k}"
+      | _ => throw s!"bad-assignment:{t}"
+  let l ← go toks "V" []
+  pure (fun ix => match l.find? (fun p => p.1 == ix) with | some p => p.2 | none => ⟨0, 0⟩)
+
+def cxStr (z : Cx CRat) : String := s!"{z.re} {z.im}"
+
+def branchName : Angle × Amp → String
+  | (.zero, .x) => "y0"
+  | (.halfPi, .y) => "x0"
+  | (.atan2yx, .hypot) => "gen"
+  | _ => "other"
+
 def handle (toks : List String) : Option String :=
   match toks with
   | ["ph.toPhasor", a, b] => some <|
-      match parseRat a, parseRat b with
-      | some a, some b => s!"{ratToStr a} {ratToStr (-b)}"
+      match parseCRat a, parseCRat b with
+      | some a, some b => cxStr (toPh ⟨a, b⟩)
       | _, _ => "bad-op"
   | ["ph.toTime", re, im] => some <|
-      match parseRat re, parseRat im with
-      | some re, some im => s!"{ratToStr re} {ratToStr (-im)}"
+      match parseCRat re, parseCRat im with
+      | some re, some im => let u := toTime (⟨re, im⟩ : Cx CRat); s!"{u.a} {u.b}"
+      | _, _ => "bad-op"
+  | ["ph.term", f, A, c, s] => some <|
+      match parseCRat A, parseCRat c, parseCRat s with
+      | some A, some c, some s =>
+        match termPhasor Gen.AC.fromTime Gen.AC.funcPhase f A c s with
+        | some p => cxStr p
+        | none => "none"
+      | _, _, _ => "bad-op"
+  | ["ph.sum", A1, c1, s1, A2, c2, s2] => some <|
+      match [A1, c1, s1, A2, c2, s2].mapM parseRat with
+      | some [A1, c1, s1, A2, c2, s2] =>
+        let x : Rat := Gen.AC.sumX A1 c1 s1 A2 c2 s2
+        let y : Rat := Gen.AC.sumY A1 c1 s1 A2 c2 s2
+        match pick x y Gen.AC.sumBranches with
+        | some br =>
+          match branchRect Gen.AC.fromTime x y br with
+          | some p => s!"{branchName br} {ratToStr p.re} {ratToStr p.im}"
+          | none => "none"
+        | none => "none"
+      | _ => "bad-op"
+  | ["ph.timeform", re, im, C, S] => some <|
+      match [re, im, C, S].mapM parseCRat with
+      | some [re, im, C, S] => toString (Gen.AC.timeForm re im C S)
+      | _ => "bad-op"
+  | ["ph.polar", re, im, "|", m2, x, y, r2] => some <|
+      match [re, im, m2, x, y, r2].mapM parseRat with
+      | some [re, im, m2, x, y, r2] =>
+        let ms : Rat := magSq (⟨re, im⟩ : Cx Rat)
+        toString (decide (m2 = ms ∧ x = re ∧ y = im ∧ r2 = ms / 2))
+      | _ => "bad-op"
+  | "ss.laws" :: rest => some <| Id.run do
+      match Lcapy.Driver.C01.splitSep rest with
+      | [w] :: more =>
+        match GQ.parse w, parseCRat w with
+        | some wg, some wc =>
+          let an := Analysis.ac wg
+          let lines := (more.dropLast).map (fun l => " ".intercalate l)
+          match elaborate an lines with
+          | .error msg => s!"error {msg}"
+          | .ok e =>
+            match parseAssignS e (more.getLast?.getD []) with
+            | .error msg => s!"error {msg}"
+            | .ok x =>
+              let tcs := e.cpts.map (fun p => toSCpt p.2)
+              match checkLawsSS wc tcs x e.cls.length with
+              | .ok => "ok"
+              | .kcl k a b => s!"kcl {Lcapy.Driver.C01.className e k} {a} {b}"
+              | .law i m a b => s!"law {(e.cpts.getD i ("?", .Open 0 0)).1} {e.brs.getD m "?"} {a} {b}"
+              | .undef what => s!"undef {what}"
+        | _, _ => "bad-analysis"
+      | _ => "bad-op"
+  | cmd :: w :: tree =>
+    if !(["ac.imp", "ac.adm", "ac.zs", "ac.ys"].contains cmd) then none else some <|
+      match parseCRat w, Lcapy.Driver.C07.parseTree Lcapy.Driver.C07.numC (0 : CRat) tree with
+      | some w, some n =>
+        if cmd = "ac.imp" then cxStr (n.acImp w)
+        else if cmd = "ac.adm" then cxStr (n.acAdm w)
+        else if cmd = "ac.zs" then cxStr (n.toCx.imp (Cx.jw w))
+        else cxStr (n.toCx.adm (Cx.jw w))
       | _, _ => "bad-op"
   | _ => none
 end Lcapy.Driver.C14
